@@ -4,9 +4,11 @@
 Input (produced with ./vcheck CNN quick|thorough --list-failures, see notes/C03.md), in /verif/.work/smb345:
   pre/T0.<ID>.<tier>.json  failing obligations on the tree before this group's five fixes were applied
   T1.<ID>.<tier>.json      failing obligations on the current /repo (fixes of all groups applied)
+  R.C03.<tier>.json        failing obligations of C03 on /repo + fixes/C03-message-marshal-resets-blocks.patch
 Output: one entry per failing obligation key.
   status "fixed" + commit : failed on T0, passes on T1 (attributed to one fix commit by command name)
-  status "known"          : fails on T1 -> needs a root cause from the reviewed table below;
+  status "fixed" + PENDING: (C03) fails on T1, passes on R: repaired by the proposed, not yet applied patch
+  status "known"          : fails on T1 (and on R) -> needs a root cause from the reviewed table below;
                                   a key without a root cause is an ERROR (the table must be extended by a human,
                                   never filled in automatically).
 The root-cause texts were written after reproducing each cause against the real code (notes/C0x.md).
@@ -20,6 +22,8 @@ CAUSE = {
  'ACC': "Marshal accumulator: every generated Marshal appends its parameter words and data bytes to Command.Parameters.Words / Command.Data.Bytes "
         "(Parameters.AddWordsFromBytesStream, Data.Add) and never resets them, and Unmarshal leaves the decoded words/bytes there too; a second Marshal of the same "
         "object, or a Marshal of a decoded object, emits the old block followed by the new one (WordCount and ByteCount double). Same code in all ~114 generated command files.",
+ 'ACC_MSG': "until fixes/C03-message-marshal-resets-blocks.patch is applied the Marshal accumulator (Command.Parameters.Words / Command.Data.Bytes are appended to, never reset) contributes to this "
+            "failure; the key keeps failing with that patch because the command does not decode its own encoding correctly, so the re-marshalled decoded object differs from the first encoding:",
  'ANDX': "AndX block never parsed: the Unmarshal of every AndX command reads its own parameter fields from offset 0 of the parameter words instead of skipping "
          "AndXCommand/AndXReserved/AndXOffset, and never fills Command.AndX; every parameter field is decoded 4 bytes too early (and the variable data fields follow the "
          "mis-decoded length fields). Same omission in all 16 generated AndX command files.",
@@ -94,7 +98,12 @@ def cause(key):
         if p[1] == 'repeat':
             cmd, sub = p[2], p[3]
             if sub in ('second-marshal-same-object', 'marshal-after-unmarshal'):
-                return ['ACC'] + (['ANDX'] if is_andx(cmd) and sub == 'marshal-after-unmarshal' else [])
+                if key in PENDING_C03:
+                    return ['ACC']
+                c = [x for x in (cmd_cause(cmd) or []) if x not in ('SSPAD',)]
+                if cmd == 'CreateTemporaryResponse': c = ['TMPNAME']
+                if cmd == 'WriteAndCloseRequest': c = ['WAC']
+                return (['ACC_MSG'] + c) if c else None
             if sub == 'unmarshal-own-encoding':
                 return cmd_cause(cmd)
         return None
@@ -250,6 +259,22 @@ def c05_field(cmd, f, k):
     return None
 
 
+OTHER = [  # (regex on key, commit, what) for keys repaired by other groups' fixes
+ (r'panic@.*SessionSetupAndxRequest\)\.Unmarshal', 'aa3851b', "SessionSetupAndxRequest.Unmarshal sliced the data block with unchecked OEMPasswordLen/UnicodePasswordLen (panic)"),
+ (r'panic@.*WriteAndxRequest\)\.Unmarshal', '791694e', "WriteAndxRequest.Unmarshal sliced the data block with an unchecked DataLength (panic)"),
+ (r'panic@.*Write(Mpx|Raw|AndClose)Request\)\.Unmarshal', 'C07 bounds fixes', "Unmarshal sliced the data block with an unchecked length/offset field (panic)"),
+ (r'panic@.*SMB_STRING\)\.Unmarshal', '2c33338', "SMB_STRING.Unmarshal format 0x05 without bounds check (panic)"),
+ (r'^C0[345]/(repeat/)?Find(Unique)?Response', '9685d8c', "SMB_DIRECTORY_INFORMATION.Unmarshal read a 13-byte window for the 14-byte FileName field ('data too short for FileName')"),
+]
+
+
+def other_fix(key):
+    for rx, commit, what in OTHER:
+        if re.search(rx, key):
+            return commit, what
+    return None
+
+
 def fix_for(key):
     p = key.split('/')
     if p[0] == 'C05' and p[1] == 'dialects': return 'Dialects'
@@ -274,12 +299,22 @@ def load(tree, prop):
     return out
 
 
+PENDING_C03 = set()
+
+
 def main():
     bad = 0
+    r = load('R', 'C03')
+    PENDING_C03.update(set(load('T1', 'C03')) - set(r))
     for prop in ('C03', 'C04', 'C05'):
         t0, t1 = load('T0', prop), load('T1', prop)
         entries = []
         unknown = []
+        if not t0 and os.path.exists(f'/verif/findings/{prop}.json'):
+            # the pre-fix failure lists (tree e2732d6) are scratch data; without them keep the committed "fixed" entries
+            for e in json.load(open(f'/verif/findings/{prop}.json')):
+                if e.get('status') == 'fixed' and e.get('commit') != 'PENDING' and e['key'] not in t1:
+                    entries.append(e)
         known_keys = dict(t1)
         for key in sorted(known_keys):
             cs = cause(key)
@@ -288,13 +323,22 @@ def main():
                 continue
             what = ' + '.join(cs) + ': ' + ' || '.join(CAUSE[c] for c in cs)
             wit = known_keys[key]
+            if prop == 'C03' and key in PENDING_C03:
+                entries.append({"property": prop, "key": key, "status": "fixed", "commit": "PENDING",
+                                "what": f"fixed: property=C03 PENDING Message.Marshal re-emitted the previous parameter/data blocks (Marshal accumulator) - fixes/C03-message-marshal-resets-blocks.patch",
+                                "witness": wit[:700]})
+                continue
             entries.append({"property": prop, "key": key, "status": "known", "what": what, "witness": wit[:700]})
         for key in sorted(set(t0) - set(known_keys)):
             fx = fix_for(key)
             if not fx:
-                unknown.append('FIXED-BUT-UNATTRIBUTED ' + key)
-                continue
-            commit, what = FIX[fx]
+                o = other_fix(key)
+                if not o:
+                    unknown.append('FIXED-BUT-UNATTRIBUTED ' + key)
+                    continue
+                commit, what = o
+            else:
+                commit, what = FIX[fx]
             entries.append({"property": prop, "key": key, "status": "fixed", "commit": commit,
                             "what": f"fixed: property={prop} {commit} {what}", "witness": t0[key][:700]})
         print(prop, 'known', sum(1 for e in entries if e['status'] == 'known'), 'fixed', sum(1 for e in entries if e['status'] == 'fixed'), 'UNCLASSIFIED', len(unknown))
